@@ -36,3 +36,10 @@ package pbutil
 //@   ghostset @call:iface:io.Writer.Write written
 //@   ensures [nil-refused] m == nil ==> result != nil && !ghost("written")
 //@   errprop proto.Marshal Writer.Write
+
+// The in-memory entry points hand the decoder the contents exactly as given (binary protobuf is not text: no
+// trimming, no re-encoding) under the path that was given.
+//@ func FromPBStringContents
+//@   assert @call:pbutil.fromPBContents [contents-passed-on-untouched] arg0 == pbPath && unboxs(arg1) == contents
+//@ func FromPBStringContents$1
+//@   ensures [bytes-of-the-string] len(result) == len(unboxs(cont))
